@@ -176,6 +176,49 @@ and a node type, heartbeat, child id or child type beyond the interpreter's digi
 boundary registry satisfies both. -/
 example : RegOK boundaryReg ∧ regIntsOK boundaryReg = true := by decide
 
+/-! ### Stored strings are opaque to the file format
+
+A string attribute (protocol version, sketch name, sketch version, description, value) is text the
+node sent; it may spell JSON syntax, comments, literals or escapes (`,}`, `[1,2,]`, `// x`, `null`,
+`\u0041`, a quote, a backslash, a line break, a byte order mark, a whole saved file).  The round trip
+through the text quantifies over every registry, hence over every such string; stated here for
+arbitrary strings in every string position at once, and on one concrete registry. -/
+
+/-- One node, two children, a string variable in every string position. -/
+def stringsReg (a b c d e f g : Str) : PDict Int Node :=
+  [(0, { ntype := 18, pv := a }),
+   (1, { ntype := 17, pv := a, sketchName := b, sketchVersion := c, battery := 87,
+         children := [(1, ⟨1, 36, d, [(47, e)]⟩), (2, ⟨2, 6, f, [(0, g), (24, e)]⟩)] })]
+
+theorem stringsReg_canon (a b c d e f g : Str) : Canon (stringsReg a b c d e f g) := of_decide_eq_true rfl
+
+/-- The hypotheses of the round trip do not look at the strings. -/
+theorem stringsReg_regOK (a b c d e f g : Str) : RegOK (stringsReg a b c d e f g) :=
+  (regOK_decides _).1 ((rfl : regOK (stringsReg a b c d e f g) = regOK (stringsReg [] [] [] [] [] [] [])).trans
+    (by decide : regOK (stringsReg [] [] [] [] [] [] []) = true))
+
+theorem stringsReg_ints (a b c d e f g : Str) : regIntsOK (stringsReg a b c d e f g) = true :=
+  (rfl : regIntsOK (stringsReg a b c d e f g) = regIntsOK (stringsReg [] [] [] [] [] [] [])).trans
+    (by decide : regIntsOK (stringsReg [] [] [] [] [] [] []) = true)
+
+/-- **Whatever the stored strings spell**, the text `save` writes is read back by `json.loads` as the
+value handed to `json.dumps`, and that value loads to the registry that was saved. -/
+theorem strings_opaque (a b c d e f g : Str) :
+    JsonText.parse (saveText (stringsReg a b c d e f g)) = .ok (saveSorted (stringsReg a b c d e f g)) ∧
+    load (saveSorted (stringsReg a b c d e f g)) = .ok (stringsReg a b c d e f g) :=
+  saved_text_round_trip _ (stringsReg_regOK a b c d e f g) (stringsReg_ints a b c d e f g) (stringsReg_canon a b c d e f g)
+
+/-- A comma before a closing brace / bracket (with and without blanks), comment openers, a literal, an
+escape sequence spelt out, a quote and a backslash, a line break and a byte order mark: read back
+character for character. -/
+def jsonLikeReg : PDict Int Node :=
+  stringsReg ",}".toList "[1, 2,\t3 ,\n]".toList "// /* # */".toList "{\"a\": null, }".toList
+    "\\u0041\\\"\\".toList "\uFEFF{}\r\n".toList "1e5,]NaN".toList
+
+example : load (save jsonLikeReg) = .ok jsonLikeReg := by decide
+example : JsonText.parse (saveText jsonLikeReg) = .ok (saveSorted jsonLikeReg) ∧
+    load (saveSorted jsonLikeReg) = .ok jsonLikeReg := strings_opaque _ _ _ _ _ _ _
+
 /-- The limit counts digits, not the sign (as `str(int)`, `json.dumps` and `int(str)` do: `str(-(10**4299))`
 has 4301 characters and is printed, `str(10**4300)` raises): a number is printable iff its negation is. -/
 theorem intOK_neg (n : Int) : intOK (-n) = intOK n := by simp [intOK, Int.natAbs_neg]
